@@ -562,6 +562,9 @@ func (g *Generator) genAttributeIPAddr(w io.Writer, attr *dictionary.Attribute, 
 	p(w, `	}`)
 	if attr.FlagEncrypt.Valid && attr.FlagEncrypt.Int == dictionary.EncryptTunnelPassword {
 		genNewTunnelPassword(w, `a`)
+		p(w, `	if err != nil {`)
+		p(w, `		return`)
+		p(w, `	}`)
 	}
 	if vendor != nil {
 		p(w, `	return _`, vendorIdent, `_AddVendor(p, `, strconv.Itoa(attr.OID[0]), `, a)`)
@@ -659,6 +662,9 @@ func (g *Generator) genAttributeIPAddr(w io.Writer, attr *dictionary.Attribute, 
 	p(w, `	}`)
 	if attr.FlagEncrypt.Valid && attr.FlagEncrypt.Int == dictionary.EncryptTunnelPassword {
 		genNewTunnelPassword(w, `a`)
+		p(w, `	if err != nil {`)
+		p(w, `		return`)
+		p(w, `	}`)
 	}
 	if vendor != nil {
 		p(w, `	return _`, vendorIdent, `_SetVendor(p, `, strconv.Itoa(attr.OID[0]), `, a)`)
@@ -1022,6 +1028,9 @@ func (g *Generator) genAttributeInteger(w io.Writer, attr *dictionary.Attribute,
 		// Having a tag an being encrypted with Tunnel password seems mutually exclusive for integers.
 		// Don't implement unless we see otherwise.
 		genNewTunnelPassword(w, `a`)
+		p(w, `	if err != nil {`)
+		p(w, `		return`)
+		p(w, `	}`)
 	}
 	if vendor != nil {
 		p(w, `	return _`, vendorIdent, `_AddVendor(p, `, strconv.Itoa(attr.OID[0]), `, a)`)
@@ -1186,6 +1195,11 @@ func (g *Generator) genAttributeInteger(w io.Writer, attr *dictionary.Attribute,
 		p(w, `		} else {`)
 		p(w, `			a[0] = 0x00`)
 		p(w, `		}`)
+	} else if attr.FlagEncrypt.Valid && attr.FlagEncrypt.Int == dictionary.EncryptTunnelPassword {
+		genNewTunnelPassword(w, `a`)
+		p(w, `	if err != nil {`)
+		p(w, `		return`)
+		p(w, `	}`)
 	}
 	if vendor != nil {
 		p(w, `	return _`, vendorIdent, `_SetVendor(p, `, strconv.Itoa(attr.OID[0]), `, a)`)
